@@ -841,7 +841,8 @@ class G:
                 covered.add(r)
                 continue
             # an ancestor arm placed earlier would shadow later arms; that is fine for S9 (first listed wins)
-            var = self.fresh("err")
+            # the arm may leave the error unnamed (`_: E => ..`): a different node in the emitted try/except
+            var = "_" if self.chance(35) else self.fresh("err")
             asc = Scope(sc)
             body = self.block(asc, ctx.deeper(), 0, 2)
             if value_ty is None:
